@@ -17,8 +17,12 @@ package genbank
 // the class is the axis that must stay for the clause to keep failing.
 
 import (
+	"bytes"
+	"compress/gzip"
 	"fmt"
 	"math/rand"
+	"os"
+	"path/filepath"
 	"reflect"
 	"runtime"
 	"sort"
@@ -1491,12 +1495,35 @@ func c01TryParse(text string) (s poly.Sequence, panicMsg string) {
 	return Parse([]byte(text)), ""
 }
 
-func c01TryMulti(text string, flat bool) (s []poly.Sequence, panicMsg string) {
+// c01TryMulti: via != "" goes through the file wrappers ReadMulti / ReadFlat /
+// ReadFlatGz (for a path ending in .gz) instead of ParseMulti / ParseFlat.
+func c01TryMulti(text string, flat bool, via string) (s []poly.Sequence, panicMsg string) {
 	defer func() {
 		if r := recover(); r != nil {
 			panicMsg = fmt.Sprintf("panic: %v", r)
 		}
 	}()
+	if via != "" {
+		data := []byte(text)
+		if strings.HasSuffix(via, ".gz") {
+			var b bytes.Buffer
+			w := gzip.NewWriter(&b)
+			w.Write(data)
+			w.Close()
+			data = b.Bytes()
+		}
+		if err := os.WriteFile(via, data, 0o644); err != nil {
+			panic(err)
+		}
+		defer os.Remove(via)
+		switch {
+		case flat && strings.HasSuffix(via, ".gz"):
+			return ReadFlatGz(via), ""
+		case flat:
+			return ReadFlat(via), ""
+		}
+		return ReadMulti(via), ""
+	}
 	if flat {
 		return ParseFlat([]byte(text)), ""
 	}
@@ -1624,11 +1651,25 @@ var c01Clauses = []c01Clause{
 }
 
 // c01EvalRecord: the Parse clauses on a single-record file.
-func c01EvalRecord(key string, f *c01File) []c01Out {
+func c01EvalRecord(key string, f *c01File, via string) []c01Out {
 	var outs []c01Out
 	text := c01FileText(f)
 	rec := &f.Recs[0]
 	s, pm := c01TryParse(text)
+	if via != "" { // through the file wrapper Read
+		if err := os.WriteFile(via, []byte(text), 0o644); err != nil {
+			panic(err)
+		}
+		func() {
+			defer func() {
+				if r := recover(); r != nil {
+					pm = fmt.Sprintf("panic: %v", r)
+				}
+			}()
+			defer os.Remove(via)
+			s, pm = Read(via), ""
+		}()
+	}
 	po := c01Out{run: c01RunPanic, key: key, nontrivial: true}
 	if pm != "" {
 		cl, min := c01Blame(f, func(g *c01File) bool { _, m := c01TryParse(c01FileText(g)); return m != "" })
@@ -1657,9 +1698,9 @@ func c01EvalRecord(key string, f *c01File) []c01Out {
 }
 
 // c01CheckFile: k records give k results, result i equals Parse(record i alone).
-func c01CheckFile(f *c01File) string {
+func c01CheckFile(f *c01File, via string) string {
 	text := c01FileText(f)
-	got, pm := c01TryMulti(text, f.Header)
+	got, pm := c01TryMulti(text, f.Header, via)
 	if pm != "" {
 		return pm
 	}
@@ -1682,15 +1723,15 @@ func c01CheckFile(f *c01File) string {
 	return ""
 }
 
-func c01EvalFile(key string, f *c01File) []c01Out {
+func c01EvalFile(key string, f *c01File, via string) []c01Out {
 	run := c01RunMulti
 	if f.Header {
 		run = c01RunFlat
 	}
 	o := c01Out{run: run, key: key, nontrivial: len(f.Recs) > 1 || !f.FinalNL}
-	if d := c01CheckFile(f); d != "" {
-		cl, min := c01Blame(f, func(g *c01File) bool { return c01CheckFile(g) != "" })
-		md := c01CheckFile(&min)
+	if d := c01CheckFile(f, via); d != "" {
+		cl, min := c01Blame(f, func(g *c01File) bool { return c01CheckFile(g, "") != "" })
+		md := c01CheckFile(&min, "")
 		if md == "" {
 			md = d
 		}
@@ -1716,7 +1757,7 @@ func TestVerifC01(t *testing.T) {
 	dom := "independent NCBI-layout writer (LOCUS columns 13-28/30-40/48-53/56-63/65-67/69-79, 12-column keyword field, feature key column 6, location/qualifier column 22, wrapping at 79 or 80 columns, ORIGIN 60/10); "
 	shapeDom := "exhaustive over shape: sequence length {7,12,345,1234,12345,100000} (1 to 6 digits) x 1 or 2 features x qualifiers per feature {0,1,2} x value shape {" + strings.Join(c01VNames, ",") +
 		"} x location on {1,2,3} lines x final newline {yes,no}, plus lengths {1,9,10,60,61,99,100,120,999,1000,9999,10000,99999} and locus names of 1..16 characters and the 4 molecule types x 2 topologies on a plain record; "
-	randDom := fmt.Sprintf("plus %d seeded-random records: length 1..100000 (digit count uniform), locus name 1..16 lower-case characters, DNA/mRNA/tRNA/rRNA, linear/circular, 0..40 features with 0..5 qualifiers (values over printable ASCII without the double quote, single-spaced words, up to 230 characters, translations up to 260), locations a..b, complement, join, complement(join), partial, single base, join of up to 40 ranges on several lines, 0..5 references with optional TITLE/PUBMED/REMARK, COMMENT/DBLINK/PROJECT blocks, metadata texts to 400 characters; ", nRandRec)
+	randDom := fmt.Sprintf("plus %d seeded-random records: length 1..100000 (digit count uniform), locus name 1..16 lower-case characters, DNA/mRNA/tRNA/rRNA, linear/circular, 0..40 features with 0..5 qualifiers (values over printable ASCII without the double quote, single-spaced words, up to 230 characters, translations up to 260), locations a..b, complement, join, complement(join), partial, single base, join of up to 40 ranges on several lines, 0..5 references with optional TITLE/PUBMED/REMARK, COMMENT/DBLINK/PROJECT blocks, metadata texts to 400 characters; every 25th random record is read through Read from a temporary file; ", nRandRec)
 	runs := []*verifRun{
 		newVerifRun("C01", "io/genbank.Parse/panic-free", dom+shapeDom+randDom+"every case counts"),
 		newVerifRun("C01", "io/genbank.Parse/post/origin", dom+shapeDom+randDom+"every case counts (length >= 1)"),
@@ -1724,8 +1765,8 @@ func TestVerifC01(t *testing.T) {
 		newVerifRun("C01", "io/genbank.Parse/post/meta", dom+shapeDom+randDom+"non-trivial = a wrapped block or an extra keyword; compared: DEFINITION, ACCESSION, VERSION, KEYWORDS, SOURCE, ORGANISM, other keywords, continuation lines joined by one blank"),
 		newVerifRun("C01", "io/genbank.Parse/post/references", dom+shapeDom+randDom+"non-trivial = at least one reference; compared: number, range, AUTHORS, TITLE, JOURNAL, PUBMED, REMARK"),
 		newVerifRun("C01", "io/genbank.Parse/post/features", dom+shapeDom+randDom+"non-trivial = at least one feature; compared: count, order, key, location text, every qualifier value, no unstated qualifier"),
-		newVerifRun("C01", "io/genbank.ParseMulti/post/records", dom+fmt.Sprintf("files of k records without header: the record shapes above (one feature) x k {1,2,3} x final newline {yes,no}, plus %d seeded-random files of 1..5 random records; non-trivial = k >= 2 or no final newline; demanded: k results, result i equal to Parse of record i alone and carrying record i's locus name", nRandFile)),
-		newVerifRun("C01", "io/genbank.ParseFlat/post/records", dom+fmt.Sprintf("files of k records behind the 10-line release header: the record shapes above (one feature) x k {1,2,3} x final newline {yes,no}, plus %d seeded-random files of 1..5 random records; non-trivial = k >= 2 or no final newline; demanded as for ParseMulti", nRandFile)),
+		newVerifRun("C01", "io/genbank.ParseMulti/post/records", dom+fmt.Sprintf("files of k records without header: the record shapes above (one feature) x k {1,2,3} x final newline {yes,no}, plus %d seeded-random files of 1..5 random records (one in ten read through ReadMulti from a temporary file); non-trivial = k >= 2 or no final newline; demanded: k results, result i equal to Parse of record i alone and carrying record i's locus name", nRandFile)),
+		newVerifRun("C01", "io/genbank.ParseFlat/post/records", dom+fmt.Sprintf("files of k records behind the 10-line release header: the record shapes above (one feature) x k {1,2,3} x final newline {yes,no}, plus %d seeded-random files of 1..5 random records (one in ten read through ReadFlat or, gzipped, ReadFlatGz from a temporary file); non-trivial = k >= 2 or no final newline; demanded as for ParseMulti", nRandFile)),
 	}
 	for _, v := range runs {
 		v.Sampled() // content is sampled even where the shape is enumerated
@@ -1758,7 +1799,7 @@ func TestVerifC01(t *testing.T) {
 		rng := c01Rng(1, i)
 		f := c01File{Recs: []c01Rec{c01ShapeRec(rng, sh.n, sh.nFeat, sh.nq, sh.vs, sh.loc)}, FinalNL: sh.nl}
 		key := fmt.Sprintf("len=%d features=%d qualifiers=%d value=%s location-lines=%d final-newline=%v", sh.n, sh.nFeat, sh.nq, c01VNames[sh.vs], sh.loc, sh.nl)
-		return c01EvalRecord(key, &f)
+		return c01EvalRecord(key, &f, "")
 	})
 	// plain records: boundary lengths, name lengths, molecule types, topology
 	type plain struct {
@@ -1790,13 +1831,18 @@ func TestVerifC01(t *testing.T) {
 		r := c01ShapeRec(rng, p.n, p.feats, 1, c01VPlain, 1)
 		r.Name, r.Mol, r.Topo = c01Name(rng, p.nameLen), p.mol, p.topo
 		f := c01File{Recs: []c01Rec{r}, FinalNL: true}
-		return c01EvalRecord(fmt.Sprintf("plain len=%d name-length=%d %s %s features=%d", p.n, p.nameLen, p.mol, p.topo, p.feats), &f)
+		return c01EvalRecord(fmt.Sprintf("plain len=%d name-length=%d %s %s features=%d", p.n, p.nameLen, p.mol, p.topo, p.feats), &f, "")
 	})
 	// ---- single records, random content ----------------------------------
+	rtmp := t.TempDir()
 	c01Parallel(nRandRec, runs, func(i int) []c01Out {
 		rng := c01Rng(3, i)
 		f := c01File{Recs: []c01Rec{c01RandRec(rng, prof)}, FinalNL: rng.Intn(2) == 0}
-		return c01EvalRecord("random#"+strconv.Itoa(i), &f)
+		via := ""
+		if i%25 == 7 {
+			via = filepath.Join(rtmp, "r"+strconv.Itoa(i)+".gbk")
+		}
+		return c01EvalRecord("random#"+strconv.Itoa(i), &f, via)
 	})
 
 	// ---- files -----------------------------------------------------------
@@ -1828,9 +1874,10 @@ func TestVerifC01(t *testing.T) {
 			f.Recs[j].Name = "rec" + strconv.Itoa(j+1) + f.Recs[j].Name
 		}
 		key := fmt.Sprintf("k=%d header=%v len=%d qualifiers=%d value=%s location-lines=%d final-newline=%v", fs.k, fs.header, fs.sh.n, fs.sh.nq, c01VNames[fs.sh.vs], fs.sh.loc, fs.sh.nl)
-		return c01EvalFile(key, &f)
+		return c01EvalFile(key, &f, "")
 	})
 	fprof := prof
+	tmp := t.TempDir()
 	c01Parallel(2*nRandFile, runs, func(i int) []c01Out {
 		rng := c01Rng(5, i)
 		f := c01File{FinalNL: rng.Intn(2) == 0, Header: i%2 == 1}
@@ -1842,7 +1889,14 @@ func TestVerifC01(t *testing.T) {
 			}
 			f.Recs = append(f.Recs, c01RandRec(rng, p))
 		}
-		return c01EvalFile(fmt.Sprintf("random-file#%d k=%d header=%v final-newline=%v", i, k, f.Header, f.FinalNL), &f)
+		via := ""
+		if i%20 >= 18 { // one file in ten through ReadMulti / ReadFlat, every other flat one gzipped
+			via = filepath.Join(tmp, "f"+strconv.Itoa(i)+".seq")
+			if i%40 == 19 {
+				via += ".gz"
+			}
+		}
+		return c01EvalFile(fmt.Sprintf("random-file#%d k=%d header=%v final-newline=%v", i, k, f.Header, f.FinalNL), &f, via)
 	})
 	if !verifThorough() {
 		runs[c01RunMulti].Domain += "; quick tier: lengths 12345 and 100000 with k = 1, 2 only"
